@@ -16,7 +16,7 @@ from bctmc.tally import Tally
 from bctmc import dtypes
 
 PROPERTY = 'C15'
-RULE = ('element types: every routine also on int64 / int32 / uint8 / bool copies of all 3-node digraphs over {0,1} and {0,1,2}, 4-node graphs over {0,1,2}, 5-node binary graphs (same values as for float64; integers must not raise, a boolean matrix may be rejected with TypeError); every free tree on 8 nodes under the scan orders of bctmc/trees.py (951 labelled trees, 0/1); the structured 7-10 node family of bctmc/named.py and all undirected graphs n<=6 x k=0..n; all digraphs n<=4 x k=0..2n-1 '
+RULE = ('K260 and a 12-clique with a hub of degree 258 (degrees beyond 255) against the peeling definition; element types: every routine also on int64 / int32 / uint8 / bool copies of all 3-node digraphs over {0,1} and {0,1,2}, 4-node graphs over {0,1,2}, 5-node binary graphs (same values as for float64; integers must not raise, a boolean matrix may be rejected with TypeError); every free tree on 8 nodes under the scan orders of bctmc/trees.py (951 labelled trees, 0/1); the structured 7-10 node family of bctmc/named.py and all undirected graphs n<=6 x k=0..n; all digraphs n<=4 x k=0..2n-1 '
         '(n<=3 and 4-node digraphs in quick); symmetric weights {1,2,3}, {0.5,1,1.5} and the non-dyadic {0.3,0.6} on 4 nodes x s on a 0.25 '
         'grid up to max strength+0.25; coreness on every graph; non-trivial = (graph,k) whose peeling needs >= 2 '
         'rounds (removing one node drags others below the bound)')
@@ -53,6 +53,7 @@ def plan(ctx):
         tot = ss.und_count(5, (0, 1, 2))
         for (a, b) in ss.ranges(tot, 256):
             units.append(('wu', 5, (0, 1, 2), a, b))
+    units += [('large', k, 0, 0, 0) for k in range(2)]
     units += dtypes.units(dtypes.STD_FAMILIES)
     return units
 
@@ -204,7 +205,62 @@ def check_graph(t, kind, A, base):
     return nontriv
 
 
+def large_graphs():
+    """degrees of 256 and more (a narrow integer counter would wrap): K260, and a 12-clique whose node 0 also carries
+    247 pendant nodes (degree 258)."""
+    K = np.ones((260, 260)) - np.eye(260)
+    H = np.zeros((259, 259))
+    H[:12, :12] = 1 - np.eye(12)
+    H[0, 12:] = H[12:, 0] = 1
+    return [('K260', K), ('clique12_hub258', H)]
+
+
+def work_large(idx):
+    t = Tally(PROPERTY)
+    label, A = large_graphs()[idx]
+    n = len(A)
+    for kind, fname in (('und', 'kcore_bu'), ('dir', 'kcore_bd')):
+        for k in (1, 2, 5, 11, 12, 100, 256, 259, 260, 300, 518, 519):
+            rounds = peel_ref(kind, A, k)
+            gone = sorted(v for r in rounds for v in r)
+            keep = [v for v in range(n) if v not in set(gone)]
+            expect = restricted(A, keep)
+            size = int(np.count_nonzero(expect.any(axis=0) | expect.any(axis=1)))
+            st, out = guarded(getattr(bct, fname), A.copy(), k, _timeout=300)
+            t.c['evaluations'] += 1
+            case = {'family': 'large', 'index': idx, 'graph': label, 'k': k, 'A': 'large[%d]' % idx}
+            if st != 'ok':
+                t.viol(fname, 'raises', case, observed=out)
+                continue
+            M = np.asarray(out[0], dtype=float)
+            if M.shape != A.shape or not np.array_equal(M, expect):
+                t.viol(fname, 'core_matrix', case, observed=int(np.count_nonzero(M)), expected=int(np.count_nonzero(expect)))
+            if int(out[1]) != size:
+                t.viol(fname, 'core_size', case, observed=out[1], expected=size)
+    st, out = guarded(bct.kcoreness_centrality_bu, A.copy(), _timeout=600)
+    t.c['evaluations'] += 1
+    if st != 'ok':
+        t.viol('kcoreness_centrality_bu', 'raises', {'family': 'large', 'index': idx, 'graph': label, 'A': 'large[%d]' % idx}, observed=out)
+    else:
+        exp = np.zeros(n)
+        for k in range(1, n + 1):
+            rounds = peel_ref('und', A, k)
+            gone = sorted(set(v for r in rounds for v in r))
+            left = restricted(A, [v for v in range(n) if v not in set(gone)])
+            alive = [v for v in range(n) if left[v].any()]
+            if not alive:
+                break
+            exp[alive] = k
+        if not np.array_equal(np.asarray(out[0], dtype=float), exp):
+            t.viol('kcoreness_centrality_bu', 'coreness', {'family': 'large', 'index': idx, 'graph': label, 'A': 'large[%d]' % idx},
+                   observed=np.asarray(out[0])[:14], expected=exp[:14])
+    t.c['nontrivial'] += 1
+    return t
+
+
 def work(unit):
+    if unit[0] == 'large':
+        return work_large(unit[1])
     if unit[0] == 'etype':
         return dtypes.work_unit(PROPERTY, ETYPE_FUNCS, unit)
     kind, n, alpha, a, b = unit
@@ -229,6 +285,8 @@ def work(unit):
 
 
 def replay(rec):
+    if rec['case'].get('family') == 'large':
+        return work_large(rec['case']['index'])
     if rec['case'].get('family') == 'element_types':
         return dtypes.replay(PROPERTY, ETYPE_FUNCS, rec['case'])
     t = Tally(PROPERTY)
